@@ -113,6 +113,11 @@ def check_propagation(ctx, ck, rule, body, blk, name, forbidden_blocks, is_forbi
                 break
         if inspected is None:
             # the path ends (stop/return/…) without ever looking at the result
+            if p.outcome[0] == "return" and mir.strip(p.outcome[1]) == mir.strip(R):
+                # `fn helper(..) -> Result<..> { ...; driver.send(evs) }`: the Result is handed to the caller as it is
+                # (the helper is a failure source in its own right and its call sites are checked)
+                err_paths += 1
+                continue
             if p.outcome[0] == "diverge":
                 bad.append(("result reaches a diverging call (unwrap/expect/panic) instead of being returned", p))
             else:
@@ -177,6 +182,17 @@ def _ordinal(body, blk, name):
 
 
 def run(ctx):
+    # this rule set follows crate-local helpers itself (each helper that reaches a Driver call is a failure source
+    # of its own, checked at its call sites): the walker's automatic splicing of new helpers is switched off here
+    saved = mir.Walker.AUTO_INLINE
+    mir.Walker.AUTO_INLINE = False
+    try:
+        return _run(ctx)
+    finally:
+        mir.Walker.AUTO_INLINE = saved
+
+
+def _run(ctx):
     ck = ctx.check
     ck.explanation = (
         "Path rule over the MIR control-flow graph of the per-device loop and of every crate-local "
